@@ -116,6 +116,7 @@ impl<'v> Compiler<'v, '_, '_, '_> {
             local_names,
             0,
             self.eval.module_env.frozen_heap(),
+            FrameSpan::default(),
         );
         // We don't preserve locals between top level statements.
         // That is OK for now: the only locals used in module evaluation
